@@ -18,6 +18,10 @@ A5 = "{34, 92, 32, 160, 110}"                        # " \ space NBSP n
 WIDE = ("{34, 92, 32, 9, 10, 13, 160, 133, 8232, 12288, 44, 58, 91, 93, 123, 125, 47, 97, 98, 102, 110, 114, 116, 117,"
         " 48, 49, 45, 46, 233, 128512}")
 
+# several small JVMs run side by side on a shared machine: few GC threads and a bounded heap cut the CPU cost by ~60 %
+# (measured: genA 82 -> 30 CPU-seconds); the contract runs hold the whole log in memory and get a larger heap
+JVM_SMALL = {"JAVA_TOOL_OPTIONS": "-XX:ParallelGCThreads=2 -Xmx3g"}
+JVM_BIG = {"JAVA_TOOL_OPTIONS": "-XX:ParallelGCThreads=3 -Xmx10g"}
 NARROW = "{34, 92, 32, 10, 160, 8232, 44, 58, 91, 110, 117, 97, 49}"
 
 # known-bad / known-good pairs for the binding self-test of contract A
@@ -36,7 +40,7 @@ def _cfg(alphabet, maxlen, invariants, impl="fixed", props=None):
 
 def _contract(chk, module, sd, files, name, timeout=900):
     """Run an F contract spec; returns (n, skipped, bad list).  Anything but a clean report is NoVerdict."""
-    r = vf.tlc(SPEC, module, module + ".cfg", sd, workers=1, files=files, timeout=timeout)
+    r = vf.tlc(SPEC, module, module + ".cfg", sd, workers=1, files=files, timeout=timeout, env=JVM_BIG)
     if r.error or r.violated or r.rc != 0:
         raise vf.NoVerdict("contract %s failed to evaluate: %s %s\n%s" % (module, r.violated, r.error, r.stdout[-2500:]))
     rep = [x for x in r.records if isinstance(x, dict) and "bad" in x and "n" in x]
@@ -194,7 +198,7 @@ def run():
                 cfg = name + ".cfg"
             kw = dict(kw)
             kw.setdefault("workers", 4 if name in ("genA", "genB", "mc7") else 1)
-            r = vf.tlc(SPEC, mod, cfg, sd, timeout=1100 if thorough else 500, files=files, **kw)
+            r = vf.tlc(SPEC, mod, cfg, sd, timeout=1100 if thorough else 500, files=files, env=JVM_SMALL, **kw)
             vf.log("tlc %-6s %6.1fs  %d states, %d records" % (name, r.wall, r.distinct, len(r.records)))
             return name, r
 
